@@ -229,7 +229,9 @@ pub fn t1_cfg(tier: &str) -> Vec<(String, Cfg)> {
 pub fn t2_cfgs(tier: &str) -> Vec<(String, Cfg, usize, bool)> {
     let mut v = vec![];
     let sizes: &[(u16, usize, usize)] = if tier == "quick" {
-        &[(100, 51, 120), (1500, 1451, 51), (1500, 70_000, 0)]
+        // (100, 9000, 0): 150 segments of 60 bytes in one window, so that one lost or overtaken
+        // segment leaves far more than a hundred segments queued behind the gap
+        &[(100, 51, 120), (1500, 1451, 51), (1500, 70_000, 0), (100, 9000, 0)]
     } else {
         &[
             (100, 51, 120),
@@ -239,6 +241,8 @@ pub fn t2_cfgs(tier: &str) -> Vec<(String, Cfg, usize, bool)> {
             (1500, 70_000, 0),
             (65535, 70_000, 1451),
             (100, 1451, 0),
+            (100, 9000, 0),
+            (100, 9000, 9000),
         ]
     };
     for &(mtu, wa, wb) in sizes {
